@@ -104,12 +104,14 @@ pub struct Bank {
 
 impl Bank {
     pub fn fresh() -> Bank {
+        // loading the bundled database costs ~50 s under Miri: matching is off there
+        let db = !cfg!(miri);
         let f = harmless_filter();
         let runners = vec![
-            ("tcp", Runner::new(Which::Tcp, 1000, true)),
-            ("http", Runner::new(Which::Http, 1000, true)),
+            ("tcp", Runner::new(Which::Tcp, 1000, db)),
+            ("http", Runner::new(Which::Http, 1000, db)),
             ("tls", Runner::new(Which::Tls, 1000, false)),
-            ("unified", Runner::new(Which::Unified, 1000, true)),
+            ("unified", Runner::new(Which::Unified, 1000, db)),
             (
                 "tcp+filter",
                 Runner::Tcp(huginn_net_tcp::HuginnNetTcp::new(None, 1000).expect("tcp").with_filter(c14::build_tcp(&f)), ttl_cache::TtlCache::new(1000)),
@@ -480,7 +482,7 @@ fn pool_stage(ctx: &mut Ctx, r: &mut Rng, frames: &[Vec<u8>]) {
                 }
             }
         }
-        let drained = pool::wait_processed(queued, Duration::from_secs(30));
+        let drained = h.wait_drain(queued, Duration::from_secs(30)) != pool::Drain::Stalled;
         let _ = h.drain_results();
         // probe through the same pool
         let mut pq = 0u64;
@@ -489,7 +491,7 @@ fn pool_stage(ctx: &mut Ctx, r: &mut Rng, frames: &[Vec<u8>]) {
                 pq += 1;
             }
         }
-        let drained2 = drained && pool::wait_processed(queued + pq, Duration::from_secs(30));
+        let drained2 = drained && h.wait_drain(queued + pq, Duration::from_secs(30)) != pool::Drain::Stalled;
         let results = h.drain_results();
         h.shutdown();
         let panics = crate::rt::panic_count() - before;
@@ -825,6 +827,14 @@ fn dummy_ctx() -> Ctx {
     }
 }
 
+/// thorough tier only: sanitizer / interpreter stages, run once in the parent
+fn sanitizers(ctx: &mut Ctx) {
+    if !ctx.thorough() {
+        return;
+    }
+    crate::rt::miri_stage(ctx, "", 3000);
+}
+
 pub fn spec() -> PropSpec {
     PropSpec {
         id: "C01",
@@ -836,6 +846,6 @@ pub fn spec() -> PropSpec {
             "probe connections use the reserved blocks 203.0.113.0/24 and 198.18.0.0/24, which no hostile generator emits; an analyzer bank older than 4 s is replaced and its probe is inconclusive (TTL caches use real time)",
             "memory-safety reach is that of the executed paths; the thorough tier adds a Miri stage on reduced workloads",
         ],
-        parent_stage: None,
+        parent_stage: Some(sanitizers),
     }
 }
